@@ -169,12 +169,43 @@ Definition sx_tnode (tree : list tnode) (e : nat * Z) : sx :=
           sx_bool (negb (Nat.eqb (t_id n) 0) || match t_parent n with None => true | Some _ => false end);
           sx_bool (match t_bundled n with Some _ => true | None => false end);
           SL (map (fun p => SB (fst p)) (kv_sort (t_children n)));
-          SL (map (fun p => SB (fst p)) (kv_sort (t_alias n)));
-          SL (map SB (sort_bytes (t_prot n)));
-          SL (map SB (sort_bytes (t_aprot n)))]
+          SL (map (fun p => SB (fst p)) (kv_sort (t_alias n)))]
   end.
 
-Definition sx_result (r : result) : sx :=
+(* diagnostic only (not compared): the reservation bookkeeping of a node *)
+Definition sx_tnode_diag (tree : list tnode) (e : nat * Z) : sx :=
+  match nth_error tree (fst e) with
+  | None => SL []
+  | Some n => SL [SL (map SB (sort_bytes (t_prot n))); SL (map SB (sort_bytes (t_aprot n)))]
+  end.
+
+(* ---------- the hypotheses of C06_unique_name / C06_lookup_partial as finite checks on a table ---------- *)
+Definition no_derived_tbl (mt : list (vkey * res (list version))) : bool :=
+  forallb (fun e => match snd e with
+                    | Ok vs => forallb (fun v => negb (attr_has K_DerivedFrom (v_attr v))) vs
+                    | _ => true end) mt.
+
+Definition no_alias_tbl (rt : list (vkey * res (list req))) : bool :=
+  forallb (fun e => match snd e with
+                    | Ok ds => forallb (fun d => match r_alias d with [] => true | _ => false end) ds
+                    | _ => true end) rt.
+
+Definition names_tbl (mt : list (vkey * res (list version))) : bool :=
+  forallb (fun e => match snd e with
+                    | Ok vs => forallb (fun v => bytes_eqb (vk_name (v_key v)) (vk_name (fst e))) vs
+                    | _ => true end) mt.
+
+Fixpoint nodupb (l : list bytes) : bool :=
+  match l with [] => true | x :: l' => negb (memb x l') && nodupb l' end.
+
+Definition distinct_tbl (mt : list (vkey * res (list version))) (rt : list (vkey * res (list req))) : bool :=
+  forallb (fun e => match snd e with
+                    | Ok ds => nodupb (map r_name (regular_imports (tbl_lookup mt) ds))
+                    | _ => true end) rt.
+
+Definition sym_mark : bytes := [124].   (* "|": what follows is diagnostic, not compared *)
+
+Definition sx_result (flags : list bool) (r : result) : sx :=
   let tree := r_tree r in
   let g := r_graph r in
   let order := rev (preorder (S (length tree)) tree O (-1)%Z []) in
@@ -187,7 +218,12 @@ Definition sx_result (r : result) : sx :=
       SL (sx_sort (map (fun e => SL [SI (gid_index tree order (ne_node e)); sx_gkey g (ne_node e);
                                      sx_vkey (ne_req e)])
                        (g_errors g)));
-      SL (map SB (r_gerror r))].
+      (* the graph-wide error: set or not (its text is never read) *)
+      sx_bool (match r_gerror r with [] => false | _ => true end);
+      SB sym_mark;
+      SL (map (sx_tnode_diag tree) order);
+      SL (map SB (r_gerror r));
+      SL (map sx_bool flags)].
 
 Definition run_npm (a : sx) : sx :=
   match a with
@@ -199,7 +235,7 @@ Definition run_npm (a : sx) : sx :=
       | Some root', Some vt', Some rt', Some mt', Some st' =>
           match resolve (tbl_lookup vt') (tbl_lookup rt') (tbl_lookup mt') (sem_lookup st')
                         (Z.to_nat fuel) root' with
-          | Ok r => sx_result r
+          | Ok r => sx_result [no_derived_tbl mt'; no_alias_tbl rt'; names_tbl mt'; distinct_tbl mt' rt'] r
           | Err _ => SL [SB sym_err]
           | Panic _ => SL [SB sym_panic]
           | OutOfFuel => SL [SB sym_fuel]
